@@ -884,7 +884,7 @@ func main() {
 		inputs := collectInputs(repo)
 		o.Stat("inputs_available", len(inputs))
 		// per-format cap so that wasm/tzif (≈ 1900 tiny files) do not crowd out the rest
-		perFormat, bud := 2, fileBudget{maxValues: 120, maxBytes: 192 * 1024, capPerClass: 40}
+		perFormat, bud := 2, fileBudget{maxValues: 80, maxBytes: 128 * 1024, capPerClass: 28}
 		if cfg.Thorough() {
 			perFormat, bud = 12, fileBudget{maxValues: 500, maxBytes: 1024 * 1024, capPerClass: 150}
 		}
